@@ -323,7 +323,54 @@ def c08(run):
     cands(run, "C08", "justified")
 
 
-PROPS = {"C01": c01, "C07": c07, "C08": c08, "C15": c15, "C16": c16, "C18": c18, "C09": c09, "C10": c10, "C11": c11, "C03": c03, "C05": c05, "C17": c17, "C02": c02, "C06": c06, "C04": c04, "C12": c12, "C13": c13, "C14": c14}
+def c19(run):
+    run.sites = {"ffi", "panic"}
+    q = run.quick()
+    lines1 = os.path.join(run.dir, "ffi_lines_exhaustive.json")
+    lines2 = os.path.join(run.dir, "ffi_lines_sim.json")
+    consts = {"Depth": 6 if q else 7, "MaxCfg": 1, "MaxCtx": 1, "MaxSug": 2, "MaxStr": 1, "AllSetters": "FALSE"}
+    tlc, s = run_tlc_replay(run, "MC_FFI", "FFI.tla", dict(spec="Spec", constants=consts, invariants=["ShownIsLive", "Emit"]), "C19",
+                            workers=4, threads=8, env_extra={"RV_SAVE_LINES": lines1, "RV_SAVE_MAX": "400" if q else "4000"}, timeout=7000)
+    run.add(tlc, s)
+    consts2 = {"Depth": 14, "MaxCfg": 2, "MaxCtx": 2, "MaxSug": 3, "MaxStr": 2, "AllSetters": "TRUE"}
+    tlc, s = run_tlc_replay(run, "MC_FFI_sim", "FFI.tla", dict(spec="Spec", constants=consts2, invariants=["ShownIsLive", "Emit"]), "C19",
+                            workers=1, threads=8, tlc_args=["-simulate", "num=%d" % (300 if q else 3000), "-depth", "16", "-seed", str(run.seed)],
+                            env_extra={"RV_SAVE_LINES": lines2, "RV_SAVE_MAX": "300" if q else "3000"}, timeout=7000)
+    run.add(tlc, s)
+    # memory-error verdict: the same replay binary under valgrind memcheck on the saved sequences
+    errors = 0
+    vg_runs = []
+    for f in (lines1, lines2):
+        t0 = time.time()
+        r = subprocess.run(["valgrind", "--leak-check=full", "--errors-for-leak-kinds=definite,indirect", "--error-exitcode=9", "-q",
+                            stages.RV, "replay-file", "--property", "C19", "--in", f], capture_output=True, text=True, env=stages.rv_env(), timeout=7000)
+        n = sum(1 for _ in open(f))
+        vg_runs.append({"file": os.path.basename(f), "sequences": n, "rc": r.returncode, "wall_s": round(time.time() - t0, 1)})
+        if r.returncode == 9:
+            errors += 1
+            rp = os.path.join(run.replay_dir, "valgrind-%s.txt" % os.path.basename(f))
+            os.makedirs(run.replay_dir, exist_ok=True)
+            open(rp, "w").write(r.stderr[-20000:])
+            shutil.copy(f, os.path.join(run.replay_dir, os.path.basename(f)))
+            run.summaries.append({"property": "C19", "behaviours": 0, "events": 0, "compared": 0, "nontrivial": 0, "violation_count": 1,
+                                  "violations": [{"site": "ffi", "what": "valgrind memcheck reports an invalid access or a leak while replaying %d call sequences: %s"
+                                                  % (n, " ".join(r.stderr.split()[:60])), "replay": rp, "case": {"lines": os.path.basename(f)}}],
+                                  "drift_count": 0, "drift_samples": [], "samples": [], "notes": {}})
+        elif r.returncode != 0:
+            raise ToolError("valgrind run failed rc=%s: %s" % (r.returncode, r.stderr[-1500:]))
+    run.extra["valgrind_runs"] = vg_runs
+    run.extra["level"] = "exploration"
+    run.rule = ("TLC enumerates ALL in-contract call orders of the 33 exported functions to depth %d (1 config, 1 context, 2 suggestions, 1 string live) and random "
+                "life cycles of 14 calls (2 configs, 2 contexts, 3 suggestions, 2 strings, all setters) from FFI.tla; each sequence is executed through the extern \"C\" "
+                "symbols: every returned string must be NUL-terminated valid UTF-8, equal to the Rust accessor's value on the same Suggestion and to the snapshot taken "
+                "when the suggestion was returned (also after its context moved on or was freed); remaining handles are freed at the end; %d+%d of the sequences are "
+                "re-executed under valgrind memcheck (invalid access / definite+indirect leaks fail the run).  Non-trivial = every executed sequence; distinct by "
+                "construction (TLC states)." % (consts["Depth"], vg_runs[0]["sequences"], vg_runs[1]["sequences"]))
+    run.assumptions += ["the memory-error verdict is valgrind's (outside TLA+); TLA+ contributes the call-order quantifier and the ownership/independence/equality clauses",
+                        "the harness declares the exported symbols itself and links them from the rlib (same code as the static library)"]
+
+
+PROPS = {"C01": c01, "C19": c19, "C07": c07, "C08": c08, "C15": c15, "C16": c16, "C18": c18, "C09": c09, "C10": c10, "C11": c11, "C03": c03, "C05": c05, "C17": c17, "C02": c02, "C06": c06, "C04": c04, "C12": c12, "C13": c13, "C14": c14}
 
 
 def replay_file(run, path):
